@@ -21,6 +21,8 @@ package internal_test
 import (
 	"context"
 	"errors"
+	"fmt"
+	"os"
 	"runtime"
 	"sort"
 	"strings"
@@ -43,6 +45,7 @@ type c15Ev struct {
 }
 
 type c15Watch struct {
+	e      *c15Etcd
 	id     int
 	prefix string // "<service key>/"
 	exact  bool
@@ -67,6 +70,16 @@ type c15Etcd struct {
 	getFails int
 	failGets int    // number of upcoming Get calls that fail
 	failPub  string // "grant" | "put" | "keepalive": the next such publisher call fails once
+
+	// gap: changes applied right after the next Get has taken its snapshot (they land
+	// between the snapshot and the Watch registration that follows it)
+	gap        []c15Ev
+	lastSnap   map[string]string // the snapshot the last Get returned
+	lastGetLen int               // log length at that snapshot
+	// floor[prefix]: highest revision the registry has been told about for the prefix
+	// (snapshot revisions of Get, revisions of responses handed to its watchers)
+	floor    map[string]int64
+	badWatch []string
 	nextLs   clientv3.LeaseID
 	pendLs   clientv3.LeaseID
 	revokes  int
@@ -78,6 +91,7 @@ func newC15Etcd() *c15Etcd {
 		store:   map[string]string{},
 		lease:   map[string]clientv3.LeaseID{},
 		nextLs:  7000,
+		floor:   map[string]int64{},
 		base:    c15BaseRev,
 		kaChans: map[clientv3.LeaseID]chan *clientv3.LeaseKeepAliveResponse{},
 	}
@@ -207,6 +221,22 @@ func (e *c15Etcd) Get(ctx context.Context, key string, opts ...clientv3.OpOption
 		resp.Kvs = append(resp.Kvs, &mvccpb.KeyValue{Key: []byte(k), Value: []byte(e.store[k])})
 	}
 	resp.Count = int64(len(keys))
+	e.lastSnap = map[string]string{}
+	for _, k := range keys {
+		e.lastSnap[k] = e.store[k]
+	}
+	e.lastGetLen = len(e.log)
+	if r := e.revLocked(); r > e.floor[key] {
+		e.floor[key] = r
+	}
+	for _, ev := range e.gap {
+		if ev.del {
+			e.delLocked(ev.key)
+		} else {
+			e.putLocked(ev.key, ev.val)
+		}
+	}
+	e.gap = nil
 	return resp, nil
 }
 
@@ -215,6 +245,7 @@ func (e *c15Etcd) Watch(ctx context.Context, key string, opts ...clientv3.OpOpti
 	e.mu.Lock()
 	defer e.mu.Unlock()
 	w := &c15Watch{
+		e:      e,
 		id:     len(e.watches),
 		prefix: key,
 		exact:  len(op.RangeBytes()) == 0,
@@ -223,6 +254,26 @@ func (e *c15Etcd) Watch(ctx context.Context, key string, opts ...clientv3.OpOpti
 		dead:   make(chan struct{}),
 
 		pumpDone: make(chan struct{}),
+	}
+	// Boundary observation: a watch must not start later than the revision after the
+	// newest state the registry has been told for this prefix (its last snapshot, or
+	// a later response it was handed): everything in between would be lost.
+	start := w.reqRev
+	if start == 0 {
+		start = e.revLocked() + 1 // no start revision: from now
+	}
+	if fl := e.floor[key]; start > fl+1 {
+		// which changes of this prefix lie between what the registry knows and the start?
+		skipped := 0
+		for _, ev := range e.log {
+			if ev.rev > fl && ev.rev < start && c15Match(ev.key, key, !w.exact) {
+				skipped++
+			}
+		}
+		if skipped > 0 {
+			e.badWatch = append(e.badWatch, fmt.Sprintf("Watch(%q) start revision %d (0 = from now, i.e. %d); the registry's newest knowledge of the prefix is revision %d (snapshot / responses it was handed); %d change(s) of the prefix with revisions in between are skipped and can never be seen",
+				key, w.reqRev, start, fl, skipped))
+		}
 	}
 	if w.reqRev == 0 {
 		w.cursor = len(e.log) // "from now"
@@ -321,6 +372,11 @@ const c15Watchdog = 20 * time.Second
 // c15Send hands one response to the watcher's goroutine. ok=false: nobody took
 // it within the watchdog (inconclusive) or the watcher was abandoned.
 func c15Send(w *c15Watch, resp clientv3.WatchResponse) (ok bool, abandoned bool) {
+	defer func() {
+		if ok && !resp.Canceled && resp.CompactRevision == 0 {
+			w.e.noteTold(w.prefix, resp.Header.Revision)
+		}
+	}()
 	select {
 	case w.ch <- resp:
 		return true, false
@@ -425,6 +481,7 @@ func c15WatchersIdle(min int) bool {
 func c15TrySend(w *c15Watch, resp clientv3.WatchResponse) bool {
 	select {
 	case w.ch <- resp:
+		w.e.noteTold(w.prefix, resp.Header.Revision)
 		return true
 	default:
 		return false
@@ -450,4 +507,44 @@ func (e *c15Etcd) loseLease(id clientv3.LeaseID) bool {
 	delete(e.kaChans, id)
 	close(ch)
 	return true
+}
+
+func (e *c15Etcd) noteTold(prefix string, rev int64) {
+	e.mu.Lock()
+	if rev > e.floor[prefix] {
+		e.floor[prefix] = rev
+	}
+	e.mu.Unlock()
+}
+
+func (e *c15Etcd) takeBadWatches() []string {
+	e.mu.Lock()
+	defer e.mu.Unlock()
+	b := e.badWatch
+	e.badWatch = nil
+	if os.Getenv("C15_NO_BOUNDARY_CHECK") != "" {
+		return nil // diagnostic knob: lets the convergence oracle alone decide
+	}
+	return b
+}
+
+func (e *c15Etcd) scheduleGap(evs []c15Ev) {
+	e.mu.Lock()
+	e.gap = append(e.gap, evs...)
+	e.mu.Unlock()
+}
+
+func (e *c15Etcd) lastGet() (snap map[string]string, logLen int) {
+	e.mu.Lock()
+	defer e.mu.Unlock()
+	out := map[string]string{}
+	for k, v := range e.lastSnap {
+		out[k] = v
+	}
+	return out, e.lastGetLen
+}
+
+func clientv3Canceled() clientv3.WatchResponse { return clientv3.WatchResponse{Canceled: true} }
+func clientv3Compacted(rev int64) clientv3.WatchResponse {
+	return clientv3.WatchResponse{CompactRevision: rev}
 }
